@@ -285,6 +285,16 @@ dom_fn!(dom_fless, FloatLess);
 dom_fn!(dom_piece, Piece);
 dom_fn!(dom_boolor, BoolOr);
 
+/// Division through the abstract-domain wrapper with a zero divisor (concrete) and a symbolic dividend (incl. 0):
+/// must report unknown of the operand width. No division circuit is needed, so this stays cheap.
+pub fn dom_div_by_zero<S: Src>(s: &mut S, bits: u32) {
+    let a = s.uw(bits);
+    let b = 0u64;
+    one_dom_binop!(s, IntDiv, bits, a, bits, b);
+    one_dom_binop!(s, IntSRem, bits, a, bits, b);
+    cov!(s, a == 0, "zero dividend reached");
+}
+
 /// Boolean connectives on 1-byte booleans (values 0/1).
 pub fn bv_bool<S: Src>(s: &mut S) {
     let a = s.u8() as u64;
@@ -711,6 +721,7 @@ crate::harnesses! {
     c01_dom_equal_32[4] => dom_equal(32, 32);
     c01_dom_srem_8[4] => dom_srem(8, 8);
     @quick c01_dom_fadd_32[4] => dom_fadd(32, 32);
+    @quick c01_dom_divzero_8[4] => dom_div_by_zero(8);
     c01_dom_fless_64[4] => dom_fless(64, 64);
     c01_dom_boolor[4] => dom_boolor(8, 8);
     c01_dom_negate_8[4] => dom_unop_negate(8);
